@@ -50,6 +50,7 @@ class SimCheck:
     def run_seed(self, seed, tier, index=0, want_sample=False):
         cfg = self.make_config(seed, tier, index)
         sim = self.make_sim(cfg)
+        sim.prop_id = self.ID
         res = sim.run()
         res["config"] = cfg
         res["nontrivial"] = self.nontrivial(res)
@@ -66,6 +67,7 @@ class SimCheck:
         import gc
 
         sim = self.make_sim(cfg, trace)
+        sim.prop_id = self.ID
         res = sim.run()
         res["config"] = cfg
         del sim
@@ -74,6 +76,7 @@ class SimCheck:
 
     def show_replay(self, cfg, trace, n):
         sim = self.make_sim(cfg, trace)
+        sim.prop_id = self.ID
         res = sim.run()
         print("    stop:", res["stop_reason"], "t=%.2f" % res["sim_seconds"], "boundaries:", res["boundaries"],
               "handles:", res["handles"], "notes:", res["notes"], "phase:", sim.phase)
